@@ -11,6 +11,22 @@ class Monitor(object):
         self.validated = 0
         self.count_prev = None
         self.last_pre = None
+        self.preempted_blocked = False
+
+    def on_detach(self, server):
+        # history marker for a known finding: a priority pre-emption evicted a *blocked* customer
+        ind = server.cust
+        if ind and ind.is_blocked:
+            import sys
+            f = sys._getframe(1)
+            for _ in range(8):
+                if f is None:
+                    break
+                if f.f_code.co_name == "preempt":
+                    self.preempted_blocked = True
+                    self.hub.flags.add("preempted_blocked_customer")
+                    break
+                f = f.f_back
 
     # ---- independent recomputation of the four counters -------------------------------------------
     def count(self, Q):
@@ -66,7 +82,8 @@ class Monitor(object):
         if status == "exception":
             tb = exc[2].strip().splitlines()
             where = next((l.strip().split(", in ")[-1] for l in reversed(tb) if l.strip().startswith("File")), "?")
-            hub.violate("C14", "exception", {"type": exc[0], "where": where, "message": exc[1][:200]})
+            hub.violate("C14", "exception", {"type": exc[0], "where": where, "message": exc[1][:200],
+                                             "after_priority_preemption_of_blocked_customer": self.preempted_blocked})
             return
         if status != "ok" or Q is None:
             return
@@ -123,7 +140,8 @@ class Spec(object):
                     d = copy.deepcopy(c)
                     d["entry"] = ["max_customers", n, method]
                     d["K"] = None          # unbounded streams
-                    d["max_events"] = 24
+                    d["max_events"] = 14
+                    d["D"] = 1 if tier == "quick" else 2
                     d["name"] += " %s(%d)" % (method, n)
                     d["family"] = "U-counts"
                     out.append(d)
